@@ -28,6 +28,7 @@
 // join only. If at every visit of every head the join-only iteration needs at
 // most widening_delay extrapolation steps: no widening call may have happened
 // and pre/post must equal (mutual <=) the join-only least fixpoint.
+#include "core/hooks.hpp"
 #include "core/report.hpp"
 #include "core/tape.hpp"
 #include "prog/lang.hpp"
@@ -578,6 +579,14 @@ static void run_part1(Tape &t, CaseCtx &ctx) {
   Flatten fl(n);
   fix.get_wto().accept(&fl);
 
+  // The same iterator object is run 1..3 times (run() re-initialises its tables):
+  // every run must return the least solution of ITS start block / initial value /
+  // assumption map, whatever the previous runs left behind. The number of extra
+  // runs comes from the tail of the tape (old tapes keep their first run).
+  unsigned extra_runs = t.tail_pick(4) == 3 ? 1 + t.tail_pick(2) : 0;
+  for (unsigned run_no = 0; run_no <= extra_runs; run_no++) {
+  if (run_no)
+    ctx.log << "---- run " << run_no + 1 << " on the same iterator object ----\n";
   // ---- start block: entry, or a block with empty WTO nesting -----------------------
   std::vector<int> admissible; // other than the entry
   for (int i = 0; i < n; i++) {
@@ -679,13 +688,19 @@ static void run_part1(Tape &t, CaseCtx &ctx) {
 
   // ---- run the engine -----------------------------------------------------------------------
   g_ops = OpCount();
-  if (use_simple_api)
-    fix.run(StateSet(init, sp.full));
-  else {
-    SetFixpo::assumption_map_t am;
-    for (auto &kv : assum)
-      am.insert({bname(kv.first), StateSet(kv.second, sp.full)});
-    fix.run(bname(start), StateSet(init, sp.full), am);
+  try {
+    if (use_simple_api)
+      fix.run(StateSet(init, sp.full));
+    else {
+      SetFixpo::assumption_map_t am;
+      for (auto &kv : assum)
+        am.insert({bname(kv.first), StateSet(kv.second, sp.full)});
+      fix.run(bname(start), StateSet(init, sp.full), am);
+    }
+  } catch (const verif::crab_error &e) {
+    // the CFG, start block and assumption map are valid inputs: the engine must return a solution
+    VCHECK(ctx, P, false, "fixpo_run_raised_crab_error" + ctxtag, "run() raised CRAB_ERROR on a valid input: " << e.what());
+    throw;
   }
 
   // ---- reference least solution (naive round robin) -----------------------------------------
@@ -783,7 +798,9 @@ static void run_part1(Tape &t, CaseCtx &ctx) {
     if (allreach != 0 && (allreach & (allreach - 1)) != 0)
       R().cls("p1_solution_has_ge2_states");
   }
-  ctx.nontrivial = cycle_reachable;
+  ctx.nontrivial = ctx.nontrivial || cycle_reachable;
+  if (run_no)
+    R().cls("p1_rerun_same_iterator");
   if (cycle_reachable && a_cycle)
     R().cls("p1_nontrivial_with_assumption_inside_cycle");
 
@@ -839,6 +856,7 @@ static void run_part1(Tape &t, CaseCtx &ctx) {
       VCHECK(ctx, P, ipost[(size_t)b] == 0, "fixpo_post_not_bottom_at_block_unreachable_from_start" + std::string(alt ? "_altstart" : ""),
              "get_post(b" << b << ") = " << set_str(ipost[(size_t)b]) << " but b" << b << " is not reachable from the start block b" << start);
     }
+  } // runs
 }
 
 // ===========================================================================
